@@ -7,7 +7,7 @@ from geom import snap_glyphset
 from ufo import build, rat
 
 ID = "C15"
-PROOF_FILES = ["Geom", "Reverse", "Render", "Flatten", "Propagate", "Propagate2", "Transform", "GoodCert", "C15", "PropagateNum", "TotalGeom", "TotalFilters", "TotalFilters2", "Total"]
+PROOF_FILES = ["Geom", "Reverse", "Render", "Flatten", "Propagate", "Propagate2", "Transform", "GoodCert", "C15", "PropagateNum", "TotalGeom", "TotalFilters", "TotalFilters2", "Total", "C15Requested", "PropagateNumTotal"]
 THEOREM = ("Ufo2ft.C15.* (affine algebra, reversal laws, bake lemma, decompose/flatten render preservation, compensation; "
            "C15_transform / transform_convex / transform_all: the whole TransformationsFilter maps every included glyph exactly once; "
            "tMatrix_eq_requested / requestedMatrix_apply / C15_transform_requested: the matrix set_context builds IS the requested one "
@@ -15,7 +15,7 @@ THEOREM = ("Ufo2ft.C15.* (affine algebra, reversal laws, bake lemma, decompose/f
            "C15_propagate (+ _placed, _complete, _idempotent, _no_override): the whole PropagateAnchorsFilter satisfies holdsPropagate; "
            "C15_propagateP / C15_propagate_promotion / promoteSplit_promotes / promoteSplit_raises: the mark-ligature promotion; "
            "C15_propagate_numbering / C15_propagateN / propagate_numbered / found_length (Props/PropagateNum.lean): one entry per carrying COMPONENT - an added anchor is named "
-           "exactly like a base anchor, or name_N with 2 <= #components whose base carries name and N <= that number); TOTALITY (Props/Total*.lean): runFilter_*_ok, C15_decompose_total / _decomposeTransformed_total / _flatten_total / _transform_total / C15_propagate_total / _outcome / C15_propagate_idempotent_total, promoteSplit_error_iff - every filter returns a result on every well-formed closed glyph set; anchor propagation raises only Exception, only when a ligature-mark-named glyph has a component without bounds; the second run always exists")
+           "exactly like a base anchor, or name_N with 2 <= #components whose base carries name and N <= that number); TOTALITY (Props/Total*.lean): runFilter_*_ok, C15_decompose_total / _decomposeTransformed_total / _flatten_total / _transform_total / C15_propagate_total / _outcome / C15_propagate_idempotent_total, promoteSplit_error_iff - every filter returns a result on every well-formed closed glyph set; anchor propagation raises only Exception, only when a ligature-mark-named glyph has a component without bounds; the second run always exists; REQUESTED MAP ON THE OUTLINE (Props/C15Requested.lean): C15_requested_simple - for ANY rational tan value, ScaleX, ScaleY, origin height, offsets and any include set the model output for an included non-empty glyph without components is requestedMap applied to every point and anchor (advance: linear part), transform_own_data, C15_requested_composite - the RESOLVED outline of every included glyph (composites too) is mapped pointwise by requestedMap when 0 < ScaleX*ScaleY and the include set is convex; C15_transform_approx / C15_requested_approx / C15_requested_total - transformWrongApprox eps finds nothing in the MODEL output for every eps >= 0 (against m, resp. requestedMatrix o), requestedMatrix_det(_pos); Props/PropagateNumTotal.lean: C15_propagate_numbering_total / C15_propagateN_total / _outcome / _wf / _total_cert - the numbering theorems without the '= .ok' hypothesis")
 N = {"quick": 500, "thorough": 8000}
 RULE = ("random component graphs (depth<=4, shared bases, dyadic affine matrices incl. mirrors, shears, rotations, singular) with "
         "line/curve/qcurve contours on a 1/8 grid, x each filter in {decompose, decomposeTransformed, flatten, transformations, "
@@ -32,7 +32,8 @@ RULE = ("random component graphs (depth<=4, shared bases, dyadic affine matrices
         "result). non-trivial = some glyph reaches depth>=2 or has a det<0 component, and the filter modified something "
         "(mark-ligature stream: a ligature-named composite was modified; slant stream: Slant != 0 and the filter modified something).")
 ASSUMED = ["math.tan is external: Slant is 0 in the exact stream; in the slant stream the double math.tan(math.radians(Slant)) is an input of "
-           "model and predicate (exact rational), and doubles are compared with tolerance 1e-6",
+           "model and predicate (exact rational; the theorems of Props/C15Requested.lean hold for ANY rational value of it), and doubles are compared with tolerance 1e-6 "
+           "(the rounding of the real filter's double arithmetic in the slant stream is not analysed: observed, not proved)",
            "mark-ligature promotion: `_bounds` is the model's own rule (lineBounds = BoundsPen on outlines without curve segments, compared "
            "with the pen on every generated component); for components whose outline has curve segments the pen's value is an input "
            "measured by the harness with fontTools BoundsPen",
@@ -400,13 +401,13 @@ LEVEL_TEXT = ("Proved (Lean, all inputs): fontTools Transform algebra (compose =
               "exactly one mark component - the first of minimal squared distance of its bounds' corner to the origin - becomes the base, "
               "the composite carries all and only its anchor names, the run raises exactly when a component has no bounds; C15_propagateN adds the numbering "
               "discipline numberingWrong: every added anchor bears exactly the name of an anchor of a component's base, or name_N with at least two components whose base "
-              "carries name and 1 <= N <= their number - a base with several anchors of one name counts once, its FIRST anchor of that name is the one propagated (model: find?)); the executable models of all five filters are tied to the code point "
+              "carries name and 1 <= N <= their number - a base with several anchors of one name counts once, its FIRST anchor of that name is the one propagated (model: find?); C15_propagateN_total / _outcome: the same without assuming that the runs return); the requested map on the outline (C15_requested_simple: for any rational tan, scales, origin height, offsets and include set an included glyph without components comes out with requestedMap applied to every point and anchor; C15_requested_composite: the resolved outline of every included glyph is mapped pointwise when 0 < ScaleX*ScaleY and the include set is convex; C15_requested_approx: the tolerance predicate transformWrongApprox eps holds of the model output for every eps >= 0); the executable models of all five filters are tied to the code point "
               "for point by the correspondence run, and the declarative render-equality predicate is evaluated on the real output.")
 LEVEL_NOTE = ("Trusted: Lean kernel + standard axioms; correspondence harness and its dyadic generators; math.tan is external (its double value is a parameter); the Slant stream of the transformations filter is "
               "TOLERANCE-ONLY (1e-6): there agree = |model - code| <= 1e-6 per coordinate and the predicate is transformWrongApprox (position-by-position "
               "comparison of the resolved outline with the requested matrix applied to the outline before, anchors, advance; only contour counts when det <= 0 or a "
-              "singular component is reachable) evaluated by the Lean driver on the OBSERVED data - no theorem states that the model output satisfies the tolerance "
-              "form (closeDrawing_refl only: an exact match is accepted); the exact predicate transformWrong is proved of the model (C15_transform) and evaluated in the exact stream; the bounds "
+              "singular component is reachable) evaluated by the Lean driver on the OBSERVED data. Proved of the MODEL over exact rationals (Props/C15Requested.lean): for any rational tan value the model output is requestedMap applied pointwise (C15_requested_simple: simple glyphs, all options, any include set; C15_requested_composite: resolved outlines of all included glyphs when 0 < ScaleX*ScaleY and the include set is convex) and satisfies the tolerance "
+              "form for every eps >= 0 (C15_transform_approx, C15_requested_approx, _total) as well as the exact predicate transformWrong (C15_transform, evaluated in the exact stream). NOT proved: that the real filter's doubles (math.tan, matrix product, rounded coordinates) stay within 1e-6 of these rationals - that is observed by the tolerance stream only (no floating-point error analysis); with ScaleX*ScaleY <= 0 (mirroring / singular requests) only C15_requested_simple applies (glyphs without components), the composite statements assume det > 0 as C15_transform does; the bounds "
               "of components whose outline has curve segments are measured by the harness (fontTools BoundsPen), line outlines are modelled; TransformationsFilter's include-gap double application "
               "is a known finding (see known_findings.json), any other failure is a violation. With duplicated anchor names in a base the declarative predicate "
               "fixes the NAMES (numbering clause) and accepts the position of any base anchor of that name; that it is the first one is checked by the point-for-point "
